@@ -89,7 +89,7 @@ def jobs(tier):
     js += [j for j in c08.jobs(tier) if j["h"] in ("c08.step",)]
     js += [j for j in c09.jobs(tier) if j["h"] in ("c09.step", "c09.push")]
     js += [j for j in c10.jobs(tier) if j["h"] in ("c10.window",)]
-    js += [j for j in c11.jobs(tier) if j["h"] in ("c11.history", "c11.reopen", "c11.add_crash")]
+    js += [j for j in c11.jobs(tier) if j["h"] in ("c11.history", "c11.reopen", "c11.add_crash", "c11.clear", "c11.close_updates")]
     js += [j for j in c12.jobs(tier) if j["h"] == "c12.cms_join"]
     js += [j for j in c16.jobs(tier) if j["h"] in ("c16.cms", "c16.cbf_add") and j["cfg"].get("w", 1) * j["cfg"].get("d", 1) <= 4]
     for counting in (False, True):
